@@ -88,7 +88,19 @@ def run_case(case):
                     r.get_min(wrap(fd, variant)), r.get_max(wrap(fd, variant)), r.get_abs_max(wrap(fd, variant))]
             fr = r.get_fractions(fd, categories=cats, fill_value=ffill)
             o["cats"] = [float(k) for k in fr.keys()]
-            res = da.compute(*(lazy + list(fr.values())))
+            first = ch is case["chunkings"][0]
+            if first:
+                # a second, different data array with the same chunking, evaluated in the SAME dask computation
+                fd2 = chunked([-v for v in fdata], shape, ch["fdata"], idt)
+                joint = [r.get_min(fd2), r.get_max(fd2), r.get_abs_max(fd2)]
+            else:
+                joint = []
+            res = da.compute(*(lazy + joint + list(fr.values())))
+            if first:
+                o["joint"] = {"min2": hx(res[9]), "max2": hx(res[10]), "absmax2": hx(res[11])}
+                res = res[:9] + res[12:]
+                # stand-alone evaluation of the same lazy results
+                o["alone"] = {"min2": hx(r.get_min(fd2).compute()), "max2": hx(r.get_max(fd2).compute())}
             o["x_idxs"], o["y_idxs"], o["idxs"] = ints(res[0]), ints(res[1]), ints(res[2])
             o["count"] = ints(res[3])
             for nm, v in zip(("sum", "avg", "min", "max", "absmax"), res[4:9]):
@@ -103,6 +115,17 @@ def run_case(case):
                     chj = case["chunkings"][j]
                     if op == "count":
                         hist.append({"op": op, "out": ints(r2.get_count().compute())})
+                    elif op == "average":
+                        dj = chunked(data, shape, chj["data"], ddt)
+                        hist.append({"op": op, "lens": [int(c) for c in dj.ravel().chunks[0]],
+                                     "out": hx(r2.get_average(dj, fill_value=fill, skipna=skipna).compute())})
+                    elif op == "fractions":
+                        fj = chunked(fdata, shape, chj["fdata"], idt)
+                        if not o["cats"]:
+                            continue
+                        cat0 = o["cats"][0]
+                        hist.append({"op": op, "lens": [int(c) for c in fj.ravel().chunks[0]], "cat": cat0,
+                                     "out": hx(r2.get_fractions(fj, categories=[cat0], fill_value=ffill)[cat0].compute())})
                     elif op == "sum":
                         dj = chunked(data, shape, chj["data"], ddt)
                         hist.append({"op": op, "lens": [int(c) for c in dj.ravel().chunks[0]],
